@@ -52,6 +52,10 @@ def random_grammar(rnd, nT=None, nN=None, max_alts=3, max_len=3, p_term=0.55, p_
             rules.append(dict(lhs=a, rhs=rhs, prec=None, c=rnd.randint(0, 9), coef=[rnd.randint(1, 9) for _ in rhs]))
     if rnd.random() < p_shuffle:
         rnd.shuffle(rules)            # the rules of one nonterminal need not be written next to each other
+    implicit = False
+    if rnd.random() < 0.15:
+        nonterms[0]['name'] = 'start'  # the default start symbol: no %start needed (and the name of yaccgo's internal start symbol)
+        implicit = rnd.random() < 0.6
     precs = []
     if rnd.random() < p_prec:
         pool = list(range(nT))
@@ -323,7 +327,8 @@ def render_decls(g, lang='go', with_tags=True):
                 out.append('%%type <%s> %s\n' % (n['tag'], n['name']))
     for kind, ts in g['precs']:
         out.append('%%%s %s\n' % (kind, ' '.join(tname(g, i) for i in ts)))
-    out.append('%%start %s\n' % g['nonterms'][g['start']]['name'])
+    if not (g.get('implicit_start') and g['nonterms'][g['start']]['name'] == 'start'):
+        out.append('%%start %s\n' % g['nonterms'][g['start']]['name'])
     return ''.join(out)
 
 
